@@ -1252,6 +1252,9 @@ def shape_text(shape):
     elif shape == 'shared':
         tgt = "shared = ['shared.c']\nprog = executable('prog', shared + ['main.c', 'alpha.c'],\n  %s)\n" % tgt_kw
         lib = "lib = static_library('lib', shared, 'main.c', 'lib.c', install: false)\n"
+    elif shape == 'two-arrays':
+        # two source arrays that start on the same line: one command may have to edit both
+        tgt = "prog = executable('prog', ['main.c', 'x1.c'], ['alpha.c', 'x2.c'],\n  %s)\n" % tgt_kw
     elif shape == 'sources-kw':
         tgt = "prog = executable('prog', sources: ['main.c', 'alpha.c'],\n  %s)\n" % tgt_kw
     elif shape == 'duplicate':
@@ -1276,7 +1279,7 @@ def shape_text(shape):
     return pl + FILLER_BEFORE + tgt + lib + FILLER_AFTER
 
 
-SHAPES_QUICK = ['literal', 'variable', 'files', 'shared', 'sources-kw', 'duplicate', 'extra-files', 'in-if', 'bare-call', 'odd-name',
+SHAPES_QUICK = ['literal', 'variable', 'files', 'shared', 'two-arrays', 'sources-kw', 'duplicate', 'extra-files', 'in-if', 'bare-call', 'odd-name',
                 'no-final-newline', 'crlf']
 
 ALPHABET = [
@@ -1286,6 +1289,7 @@ ALPHABET = [
     ('rm-existing', c_target('prog', 'src_rm', ['main.c'])),
     ('rm-missing', c_target('prog', 'src_rm', ['nothere.c'])),
     ('rm-all', c_target('prog', 'src_rm', ['main.c', 'alpha.c'])),
+    ('rm-all-rev', c_target('prog', 'src_rm', ['alpha.c', 'main.c'])),
     ('rm-new', c_target('prog', 'src_rm', ['new.c'])),
     ('rm-shared', c_target('prog', 'src_rm', ['shared.c'])),
     ('xf-add', c_target('prog', 'extra_files_add', ['README.md'])),
